@@ -440,6 +440,9 @@ impl CrashScenario {
         if serde_json::to_string(&base.problem["fleet"]).map(|t| t.contains("\"reloads\"")).unwrap_or(false) {
             sig.push("reloads");
         }
+        if base.problem["fleet"].get("resources").is_some() {
+            sig.push("shared-resource");
+        }
         let sig = sig.join("|");
         let mut push = |rec: &mut CaseRecord, issues: Vec<(String, String, String)>| {
             let flagged = issues.iter().any(|(_, r, _)| r == "unreachable-leg");
